@@ -55,6 +55,8 @@ def make_series(vals, kind, nd=1):
         return buf[::-1]
     if kind == 'F':      # n-D series stored column-major
         return np.asfortranarray(a)
+    if kind == 'Tview':  # channel-first storage, handed over as a transposed view
+        return np.ascontiguousarray(a.T).T
     raise ValueError(kind)
 
 
@@ -172,6 +174,11 @@ def registry():
     pair('dtw.ub_euclidean', 'py', lambda a, b: dtw.ub_euclidean(a, b), ('dtw.ub_euclidean', {}))
     pair('ed.distance', 'py', lambda a, b: ed.distance(a, b), ('ed.distance', {}))
     pair('ed.distance_fast', 'c', lambda a, b: ed.distance_fast(a, b))
+    pair('dtw_ndim.distance', 'np', lambda a, b: dtw_ndim.distance(a, b, **W))
+    pair('dtw_ndim.distance_fast', 'c', lambda a, b: dtw_ndim.distance_fast(a, b, **W))
+    pair('dtw_ndim.warping_paths_fast', 'c', lambda a, b: dtw_ndim.warping_paths_fast(a, b, **W))
+    pair('dtw_ndim.warping_path', 'np', lambda a, b: dtw_ndim.warping_path(a, b, **W))
+    pair('dtw_ndim.ub_euclidean', 'np', lambda a, b: dtw_ndim.ub_euclidean(a, b))
     pair('subsequence_alignment', 'np', lambda a, b: subsequence_alignment(a, b).matching_function())
     pair('subsequence_alignment(use_c)', 'c', lambda a, b: subsequence_alignment(a, b, use_c=True).matching_function())
     coll('dtw.distance_matrix', 'py', lambda S: dtw.distance_matrix(S, **W))
@@ -215,7 +222,11 @@ def registry():
 PAIR_NAMES = ['dtw.distance', 'dtw.distance[psi]', 'dtw.distance_fast', 'dtw.distance(use_c)', 'dtw.warping_paths',
               'dtw.warping_paths_fast', 'dtw.warping_paths_fast[compact]', 'dtw.warping_path', 'dtw.warping_path_fast',
               'dtw.warp', 'dtw.lb_keogh', 'dtw.lb_keogh(use_c)', 'dtw.ub_euclidean', 'ed.distance', 'ed.distance_fast',
-              'subsequence_alignment', 'subsequence_alignment(use_c)']
+              'subsequence_alignment', 'subsequence_alignment(use_c)', 'dtw_ndim.distance', 'dtw_ndim.distance_fast',
+              'dtw_ndim.warping_paths_fast', 'dtw_ndim.warping_path', 'dtw_ndim.ub_euclidean']
+NDIM_NAMES = ['dtw_ndim.distance', 'dtw_ndim.distance_fast', 'dtw_ndim.warping_paths_fast', 'dtw_ndim.warping_path',
+              'dtw_ndim.ub_euclidean']
+SERIES_ND = ['ndarray', 'F', 'strided', 'reversed', 'Tview', 'ndarray']
 COLL_NAMES = ['dtw.distance_matrix', 'dtw.distance_matrix[block]', 'dtw.distance_matrix_fast',
               'dtw.distance_matrix(use_c,compact)', 'dba', 'dba(use_c)', 'dba_loop', 'dba_loop(use_c)', 'subsequence_search',
               'subsequence_search(use_c)', 'Hierarchical.fit', 'KMeans.fit', 'KMeans.fit(use_c)']
@@ -234,6 +245,14 @@ def _case_call(draw):
     name = draw(st.sampled_from(PAIR_NAMES + COLL_NAMES))
     regime = draw(st.sampled_from(['L', 'L', 'F']))
     case = {'routine': name}
+    if name in NDIM_NAMES:
+        nd = draw(st.integers(2, 3))
+        case['nd'] = nd
+        case['s1'] = draw(gen.series(2, 7, regime, nd))
+        case['s2'] = draw(gen.series(2, 7, regime, nd))
+        case['c1'] = draw(st.sampled_from(SERIES_ND))
+        case['c2'] = draw(st.sampled_from(SERIES_ND))
+        return case
     if name in PAIR_NAMES:
         case['s1'] = draw(gen.series(1, 8, regime, 1))
         case['s2'] = draw(gen.series(1, 8, regime, 1))
@@ -260,10 +279,11 @@ def _args(case, canonical):
     name = case['routine']
     eng = _eng(name)
     if name in PAIR_NAMES:
+        nd = case.get('nd', 1)
         if canonical:
             k = 'ndarray' if eng in ('c', 'np') else 'list'
-            return [make_series(case['s1'], k), make_series(case['s2'], k)]
-        return [make_series(case['s1'], case['c1']), make_series(case['s2'], case['c2'])]
+            return [make_series(case['s1'], k, nd), make_series(case['s2'], k, nd)]
+        return [make_series(case['s1'], case['c1'], nd), make_series(case['s2'], case['c2'], nd)]
     if canonical:
         return [make_coll(case['series'], 'list-ndarray' if eng in ('c', 'np') else 'list-list')]
     return [make_coll(case['series'], case['cont'])]
@@ -276,7 +296,7 @@ def run_call(case):
     ent = R[name]
     noncanon = (case.get('c1'), case.get('c2'), case.get('cont'))
     res.cls('routine=' + name, 'eng=' + ent['eng'])
-    res.nontrivial = any(k in ('strided', 'reversed', 'array', 'tuple', '2d-F', '2d-strided', 'container', 'list-strided',
+    res.nontrivial = any(k in ('strided', 'reversed', 'array', 'tuple', '2d-F', 'F', 'Tview', '2d-strided', 'container', 'list-strided',
                                'list-array', '2d') for k in noncanon if k)
     canon_args = _args(case, True)
     expv, exc0 = libcall(ent['fn'], *canon_args)
